@@ -183,6 +183,11 @@ func kindOfValue(e ast.Expr, consts map[string]bool) string {
 				if (x.Name == "errors" && f.Sel.Name == "New") || (x.Name == "fmt" && f.Sel.Name == "Errorf") {
 					return "value"
 				}
+				// the library's own error constructors (common/errors.New…), when every one of their return statements
+				// is a plain struct literal (a value, not an address): see valueErrorCtors
+				if x.Name == "errors" && valueErrorCtors[f.Sel.Name] {
+					return "value"
+				}
 			}
 		}
 		return "ref"
@@ -245,8 +250,44 @@ func localNames(fn *ast.FuncDecl) map[string]bool {
 	return m
 }
 
+// valueErrorCtors: functions New… of the library's package `errors` all of whose return statements return a composite
+// literal of a struct type (`T{…}`, not `&T{…}`): the error they return is an immutable value.
+var valueErrorCtors = map[string]bool{}
+
+func findValueErrorCtors(pkgs []*pkgInfo) {
+	for _, p := range pkgs {
+		if filepath.Base(p.name) != "errors" {
+			continue
+		}
+		for _, f := range p.files {
+			for _, d := range f.Decls {
+				fn, ok := d.(*ast.FuncDecl)
+				if !ok || fn.Body == nil || fn.Recv != nil || !strings.HasPrefix(fn.Name.Name, "New") {
+					continue
+				}
+				good, n := true, 0
+				ast.Inspect(fn.Body, func(nd ast.Node) bool {
+					if r, ok := nd.(*ast.ReturnStmt); ok {
+						for _, e := range r.Results {
+							n++
+							if _, ok := e.(*ast.CompositeLit); !ok {
+								good = false
+							}
+						}
+					}
+					return true
+				})
+				if good && n > 0 {
+					valueErrorCtors[fn.Name.Name] = true
+				}
+			}
+		}
+	}
+}
+
 func genGlobals(pkgs []*pkgInfo, out string) {
 	var vars, writes []string
+	findValueErrorCtors(pkgs)
 	// exported package-level variables of every package of the library, for writes from another package (pkg.Var = …)
 	exported := map[string]map[string]bool{}
 	type gl struct{ kind string }
@@ -289,10 +330,11 @@ func genGlobals(pkgs []*pkgInfo, out string) {
 						}
 						globals[n.Name] = gl{kind}
 						if ast.IsExported(n.Name) {
-							if exported[p.name] == nil {
-								exported[p.name] = map[string]bool{}
+							base := filepath.Base(p.name)
+							if exported[base] == nil {
+								exported[base] = map[string]bool{}
 							}
-							exported[p.name][n.Name] = true
+							exported[base][n.Name] = true
 						}
 						vars = append(vars, fmt.Sprintf("(%s, %s, %s, %s)", leanStr(p.name), leanStr(n.Name), leanStr(kind), leanStr(typ)))
 					}
